@@ -114,8 +114,8 @@ def run(ctx):
     bm = one(ctx, "R11.3", NS + "base::matches")
     if tm and bm:
         pn = tm.params[0]["name"] if tm.params else "arg"
-        got = lg.fn_formula(tm, {"this": None, "params": {}})
-        base = lg.fn_formula(bm, {"this": None, "params": {bm.params[0]["name"]: {"k": "ref", "decl": "param:" + pn}}})
+        got = lg.fn_formula(tm, {"this": None, "params": {}}, noreturn_false=True)
+        base = lg.fn_formula(bm, {"this": None, "params": {bm.params[0]["name"]: {"k": "ref", "decl": "param:" + pn}}}, noreturn_false=True)
         if got is None or base is None:
             ctx.broken("R11.3", tm, "matches-skeleton", "toggle::matches / base::matches is not a loop-free boolean function any more", tm)
         else:
@@ -194,6 +194,9 @@ def run(ctx):
         from .common import share
         share(ctx, "C19", ("R19.1",), "R11.8", "env::get obligations shared with C19", 4)
         share(ctx, "C14", ("R14.3",), "R11.8", "reset-pass obligations shared with C14", 4)
+        ctx.rule("R11.9", "an unparsable environment word is a catchable parsing_error (R04.7: nothing noexcept on the way) and a token that spells the toggle's letter is offered to it (R12.1: only dash-less tokens are values)")
+        share(ctx, "C04", ("R04.7",), "R11.9", "noexcept obligations shared with C04", 10)
+        share(ctx, "C12", ("R12.1",), "R11.9", "value-token obligations shared with C12", 1)
     # ---- R11.4
     pe = one(ctx, "R11.4", NS + "toggle::parse_env_value")
     if pe:
